@@ -91,6 +91,40 @@ def fixed_depth_builder(ctx, crate):
     ctx.report(clause, "drain_buffer:sort-dedup-iff-unsorted", oks, "sort_unstable + dedup run only when self.sorted is false (%d sites)" % len(sd), at=db.span, kind="N")
 
 
+def merge_level_cap(ctx, crate):
+    """N: in the run-length grouping of the fixed-depth builder the merge level is capped by the
+    builder's own depth (a cell cannot be coarser than a base cell: depth - level must not
+    underflow).  The rule only speaks when the cap is written as a `min` with a constant / field:
+    then the other operand must be self.depth."""
+    clause = "fixed-depth-builder"
+    fn = FD + "largest_lower_cell_sequence_len"
+    b = ctx.anchor(crate, fn, clause)
+    if b is None: return
+    e = Engine(crate); e.run(fn); ctx.functions |= e.visited_fns
+    dep = ('fld', ('deref', ('p', 'self')), crate.field_index("nested::bmoc::BMOCBuilderFixedDepth", "depth"))
+    caps = []
+    for t in [ev.ret for ev in e.events.values()] + [d for d, _ in e.branches]:
+        pass
+    mins = []
+    for ev in e.events.values(): pass
+    seen = set()
+    def scan(t):
+        for x in walk(t):
+            if x[0] == 'call' and x[1].endswith("::min") and len(x[2]) == 2 and x not in seen:
+                seen.add(x); mins.append(x)
+    for ev in e.events.values():
+        for a in ev.args: scan(a)
+        if ev.ret is not None: scan(ev.ret)
+    for d, _ in e.branches: scan(d)
+    tz = [m for m in mins if any(y[0] == 'call' and y[1].endswith("trailing_zeros") for y in walk(m))
+          and not any(y is not m and y[0] == 'call' and y[1].endswith("::min") for a in m[2] for y in walk(a))]
+    if not tz:
+        ctx.not_decided("merge-level cap of largest_lower_cell_sequence_len is not written as min(level, cap): not decided"); return
+    bad = [show(m)[:100] for m in tz if dep not in m[2]]
+    ctx.report(clause, "largest_lower_cell_sequence_len:merge-level<=builder-depth", not bad,
+               "merge level = min(trailing_zeros(h)/2, self.depth)" if not bad else "the merge level is capped by something else than the builder depth: %s — a run of 4^(depth+1) cells is merged into a cell coarser than a base cell (depth underflow)" % bad, at=b.span, kind="N")
+
+
 def pack_rule(ctx, crate):
     clause = "pack"
     fn = M + "BMOCBuilderUnsafe::pack"
@@ -152,5 +186,6 @@ def run(ctx):
     ctx.floor("reencoding-obligations", n, len(triples))
     ctx.extra["triples"] = len(triples)
     fixed_depth_builder(ctx, crate)
+    merge_level_cap(ctx, crate)
     pack_rule(ctx, crate)
     ctx.not_decided("coverage equality for all push sequences and capacities; fixpoint of pack; largest_lower_cell_sequence_len arithmetic (quantify over sequences)")
